@@ -79,6 +79,20 @@ func (e *connStatus) SwapWithoutLock(state connStatusValue) (old connStatusValue
 	return
 }
 
+// MarkReconnectingSince moves to connStatusReconnecting unless the connection is closed (false) or an
+// outage has already been recorded since the given count (the failure the caller saw belongs to it).
+func (e *connStatus) MarkReconnectingSince(outages uint64) (open bool) {
+	e.Lock()
+	defer e.Unlock()
+	if e.IsWithoutLock(connStatusClosed) {
+		return false
+	}
+	if e.outages == outages {
+		e.SwapWithoutLock(connStatusReconnecting)
+	}
+	return true
+}
+
 func (e *connStatus) Outages() uint64 {
 	e.RLock()
 	defer e.RUnlock()
